@@ -10,7 +10,7 @@ STUBS = ["subprocess.Popen in biotite.application.localapp -> FakePopen: launch 
 
 
 def ob(kind, extra):
-    return SX(f"sx_lifecycle_{kind}", "sx_c20", f"ob_{kind}", cls="S", quick=400, thorough=3000, parts={"quick": 10, "thorough": 10},
+    return SX(f"sx_lifecycle_{kind}", "sx_c20", f"ob_{kind}", cls="S", quick=400, thorough=3000, parts={"quick": 16, "thorough": 16},
               functions=FUNCS + [A + extra], stubs=STUBS,
               bounds="all call sequences of length 3 for ClustalOmegaApp and 2 for the other wrappers (thorough: 4 for ClustalOmegaApp, 3 for the others) over {start, join, join(timeout), cancel, get_app_state, option setter, get_alignment, get_exit_code, get_alignment_order, get_command} x all program behaviours; 3 input sequences; oracle = documented life-cycle automaton + resource assertions after every call")
 
